@@ -569,7 +569,7 @@ func TestCheck(t *testing.T) {
 	defer os.RemoveAll(tmp)
 	h := &harness{r: r, tmp: tmp}
 
-	n := r.Pick(2500, 20000)
+	n := r.Pick(2000, 20000)
 	const workers = 4
 	first := 0
 	if rf := r.ReplayFile(); rf != "" {
